@@ -261,6 +261,21 @@ def h_names(run, cfg):
     got = list(s.temp['selected'])
     member_iff(run, resolved, got, v > 0, 'resolveontherun')
     run.check([c for c in got if c != resolved] == others and 'alias' not in got, 'resolveontherun-keeps-others', str(got))
+    # type filter in a nested tree: only the strategy's own children are candidates, not the securities held by its sub-strategies
+    kid = B.Strategy('kid', [], [C.Security('ab1'), C.HedgeSecurity('xy1')])
+    top = B.Strategy('top', [], [kid, C.CouponPayingSecurity('ab2')])
+    top.setup(data, coupons=frame(run, dts, ['ab2'], lambda i, c: 0.0))
+    for d in dts:
+        top.update(d)
+    top.temp = {}
+    A.SelectTypes(include_types=(C.SecurityBase,))(top)
+    run.check(sorted(top.temp['selected']) == ['ab2'], 'selecttypes-own-children-only', str(top.temp['selected']))
+    top.temp = {}
+    A.SelectTypes(include_types=(C.StrategyBase,))(top)
+    run.check(sorted(top.temp['selected']) == ['kid'], 'selecttypes-own-children-only', 'strategies: ' + str(top.temp['selected']))
+    top.temp = {}
+    A.SelectTypes(include_types=(C.Node,), exclude_types=(C.CouponPayingSecurity,))(top)
+    run.check(sorted(top.temp['selected']) == ['kid'], 'selecttypes-own-children-only', 'all but coupon: ' + str(top.temp['selected']))
 
 
 HARNESSES = {'basic': h_basic, 'rank': h_rank, 'names': h_names}
